@@ -8,6 +8,7 @@ model's `scan`, for every table size `N > 0`.  The three bit sets and the remain
 read off the model's `Vector Slot N`; `while`/`loop` take the fuel `len + 1` the model uses (out of fuel = the
 real code would not terminate = panic on both sides).
 -/
+set_option linter.unusedSimpArgs false
 namespace Pds.KernelTie
 open Pds Pds.Generated.Kernels Pds.Quotient
 
@@ -164,5 +165,305 @@ theorem qf_scan_eq (t : St N) (q : Fin N) (r : Nat) (onInsert : Bool) :
             obtain ⟨pr, p⟩ := res
             cases pr <;> simp [Flow.bind]
         · simp [hr, Flow.bind]
+
+/-! ### `insert_internal`: slot updates on the four lists -/
+
+theorem get_set (t : St N) (p j : Fin N) (s : Slot) : (t.set p s).get j = if j = p then s else t.get j := by
+  unfold St.get St.set
+  by_cases h : j = p
+  · subst h; simp
+  · have : p.val ≠ j.val := fun hv => h (Fin.ext hv.symm)
+    simp [h, Vector.getElem_set, this]
+
+theorem listOf_set {β : Type} (f : Slot → β) (t : St N) (p : Fin N) (s : Slot) :
+    (List.ofFn fun i : Fin N => f ((t.set p s).get i)) = (List.ofFn fun i : Fin N => f (t.get i)).set p.val (f s) := by
+  apply List.ext_getElem?
+  intro i
+  by_cases hi : i < N
+  · rw [List.getElem?_set]
+    by_cases hp : p.val = i
+    · subst hp
+      simp [List.getElem?_ofFn, get_set]
+    · have : (⟨i, hi⟩ : Fin N) ≠ p := fun h => hp (by rw [← h])
+      simp [List.getElem?_ofFn, hi, hp, get_set, this]
+  · rw [List.getElem?_set]
+    have : p.val ≠ i := fun h => hi (h ▸ p.isLt)
+    simp [List.getElem?_ofFn, hi, this]
+
+theorem occL_set (t : St N) (p : Fin N) (s : Slot) : occL (t.set p s) = (occL t).set p.val s.occ := listOf_set (·.occ) t p s
+theorem contL_set (t : St N) (p : Fin N) (s : Slot) : contL (t.set p s) = (contL t).set p.val s.cont := listOf_set (·.cont) t p s
+theorem shiftL_set (t : St N) (p : Fin N) (s : Slot) : shiftL (t.set p s) = (shiftL t).set p.val s.shift := listOf_set (·.shift) t p s
+theorem remL_set (t : St N) (p : Fin N) (s : Slot) : remL (t.set p s) = (remL t).set p.val s.rem := listOf_set (·.rem) t p s
+
+theorem set_self_of_get {β : Type} (l : List β) (i : Nat) (v : β) (h : l[i]? = some v) : l.set i v = l := by
+  apply List.ext_getElem?
+  intro j
+  rw [List.getElem?_set]
+  by_cases hj : i = j
+  · subst hj
+    have : i < l.length := by
+      rcases Nat.lt_or_ge i l.length with h' | h'
+      · exact h'
+      · rw [List.getElem?_eq_none h'] at h; exact absurd h (by simp)
+    rw [if_pos this, h]
+    simp
+  · simp [hj]
+
+@[simp] theorem contL_len (t : St N) : (contL t).length = N := by simp [contL]
+@[simp] theorem shiftL_len (t : St N) : (shiftL t).length = N := by simp [shiftL]
+@[simp] theorem remL_len (t : St N) : (remL t).length = N := by simp [remL]
+
+/-- the swap chain `while current_used { … }` -/
+theorem qf_swapLoop_eq (start : Fin N) (fuel : Nat) (t : St N) (n : Nat) (pos : Fin N) (cc : Bool) (cr : Nat) (cu : Bool) :
+    ∃ cc' cr' cu' pos', qf_insert_internal_loop1 start.val fuel (occL t, contL t, shiftL t, remL t, n, cc, cr, cu, pos.val) =
+      match swapLoop t start fuel pos cc cr cu with
+      | none => Flow.panic
+      | some t' => Flow.cont (occL t', contL t', shiftL t', remL t', n, cc', cr', cu', pos') := by
+  induction fuel generalizing t pos cc cr cu with
+  | zero => exact ⟨cc, cr, cu, pos.val, by simp [qf_insert_internal_loop1, swapLoop]⟩
+  | succ f ih =>
+    by_cases hcu : cu = true
+    · subst hcu
+      let nx := t.get (incr pos)
+      let t' := t.set (incr pos) { nx with shift := true, cont := cc, rem := cr }
+      have hocc : occL t' = occL t := by
+        rw [occL_set]; exact set_self_of_get _ _ _ (occL_get t (incr pos))
+      by_cases hs : incr pos = start
+      · refine ⟨cc, cr, true, pos.val, ?_⟩
+        have hsv : (incr pos).val = start.val := by rw [hs]
+        simp [qf_insert_internal_loop1, swapLoop, ringIncr_eq, hs, Flow.bind]
+      · have hsv : (incr pos).val ≠ start.val := fun hv => hs (Fin.ext hv)
+        obtain ⟨cc', cr', cu', pos', h'⟩ := ih t' (incr pos) nx.cont nx.rem (nx.occ || nx.shift)
+        refine ⟨cc', cr', cu', pos', ?_⟩
+        have hbeq : (incr pos == start) = false := by simp [hs]
+        simp only [qf_insert_internal_loop1, swapLoop, if_true, occL_len, ringIncr_eq, contL_get, remL_get, occL_get,
+          shiftL_get, shiftL_len, contL_len, remL_len, (incr pos).isLt, hsv, decide_false, Bool.false_eq_true, if_false,
+          Flow.bind_cont, Bool.not_true, hbeq]
+        rw [← shiftL_set t (incr pos) { nx with shift := true, cont := cc, rem := cr },
+          ← contL_set t (incr pos) { nx with shift := true, cont := cc, rem := cr },
+          ← remL_set t (incr pos) { nx with shift := true, cont := cc, rem := cr }]
+        rw [← hocc]
+        exact h'
+    · have hcu' : cu = false := by simpa using hcu
+      subst hcu'
+      exact ⟨cc, cr, false, pos.val, by simp [qf_insert_internal_loop1, swapLoop]⟩
+
+/-- `Ok(false)` ↦ 0, `Ok(true)` ↦ 1, `Err(QuotientFilterFull)` ↦ 2 -/
+def qfRes : Quotient.Res → Nat
+  | .ok false => 0
+  | .ok true => 1
+  | .full => 2
+
+theorem atStart_eq (sr : ScanResult N) :
+    (match sr.startOfRun.map (·.val) with | some st_ => decide (st_ = sr.position.val) | none => false) = sr.atStartOfRun := by
+  unfold ScanResult.atStartOfRun
+  cases sr.startOfRun with
+  | none => rfl
+  | some s0 =>
+    by_cases h : s0 = sr.position
+    · simp [h]
+    · have : s0.val ≠ sr.position.val := fun hv => h (Fin.ext hv)
+      simp [h, this]
+
+theorem hasRun_eq (sr : ScanResult N) : (sr.startOfRun.map (·.val)).isSome = sr.hasRun := by
+  unfold ScanResult.hasRun; cases sr.startOfRun <;> rfl
+
+/-- what follows the conditional writes: the swap chain, `is_occupied.set(quotient, true)`, `n_elements += 1` -/
+theorem qf_insert_tail (t1 : St N) (start q : Fin N) (cc : Bool) (cr : Nat) (cu : Bool) (n : Nat) :
+    ((qf_insert_internal_loop1 start.val (N + 1) (occL t1, contL t1, shiftL t1, remL t1, n, cc, cr, cu, start.val)).bind
+        fun x => if q.val < x.fst.length then
+            (Flow.ret (1, x.fst.set q.val true, x.2.fst, x.2.2.fst, x.2.2.2.fst, x.2.2.2.2.fst + 1) :
+              Flow (Nat × List Bool × List Bool × List Bool × List Nat × Nat) (List Bool × List Bool × List Bool × List Nat × Nat))
+          else Flow.panic) =
+      match swapLoop t1 start (N + 1) start cc cr cu with
+      | none => Flow.panic
+      | some t2 =>
+        Flow.ret (1, occL (t2.set q { t2.get q with occ := true }), contL (t2.set q { t2.get q with occ := true }),
+          shiftL (t2.set q { t2.get q with occ := true }), remL (t2.set q { t2.get q with occ := true }), n + 1) := by
+  obtain ⟨cc', cr', cu', pos', hl⟩ := qf_swapLoop_eq start (N + 1) t1 n start cc cr cu
+  rw [hl]
+  cases hsw : swapLoop t1 start (N + 1) start cc cr cu with
+  | none => simp [Flow.bind]
+  | some t2 =>
+    have hc2 : contL (t2.set q { t2.get q with occ := true }) = contL t2 := by
+      rw [contL_set]; exact set_self_of_get _ _ _ (contL_get t2 q)
+    have hs2 : shiftL (t2.set q { t2.get q with occ := true }) = shiftL t2 := by
+      rw [shiftL_set]; exact set_self_of_get _ _ _ (shiftL_get t2 q)
+    have hr2 : remL (t2.set q { t2.get q with occ := true }) = remL t2 := by
+      rw [remL_set]; exact set_self_of_get _ _ _ (remL_get t2 q)
+    simp [Flow.bind, occL_set, hc2, hs2, hr2]
+
+theorem swapLoop_n (start : Fin N) : ∀ (fuel : Nat) (t : St N) (pos : Fin N) (cc : Bool) (cr : Nat) (cu : Bool) (t' : St N),
+    swapLoop t start fuel pos cc cr cu = some t' → t'.n = t.n := by
+  intro fuel
+  induction fuel with
+  | zero => intro t pos cc cr cu t' h; simp [swapLoop] at h
+  | succ f ih =>
+    intro t pos cc cr cu t' h
+    unfold swapLoop at h
+    by_cases hcu : cu = true
+    · subst hcu
+      simp only [Bool.not_true, Bool.false_eq_true, if_false] at h
+      by_cases hs : (incr pos == start) = true
+      · simp [hs] at h
+      · simp only [hs, if_false] at h
+        have := ih _ _ _ _ _ _ h
+        simpa [St.set] using this
+    · have : cu = false := by simpa using hcu
+      subst this
+      simp only [Bool.not_false, if_true, Option.some.injEq] at h
+      rw [h]
+
+/-- the conditional writes have produced the lists of `t.set pos s3` -/
+theorem qf_insert_leaf (t : St N) (pos q : Fin N) (r n : Nat) (cc : Bool) (cr : Nat) (cu : Bool) (s3 : Slot)
+    (hocc : s3.occ = (t.get pos).occ) (hrem : s3.rem = r) (X Y : List Bool)
+    (hX : X = (contL t).set pos.val s3.cont) (hY : Y = (shiftL t).set pos.val s3.shift) :
+    ((qf_insert_internal_loop1 pos.val (N + 1) (occL t, X, Y, (remL t).set pos.val r, n, cc, cr, cu, pos.val)).bind
+        fun x => if q.val < x.fst.length then
+            (Flow.ret (1, x.fst.set q.val true, x.2.fst, x.2.2.fst, x.2.2.2.fst, x.2.2.2.2.fst + 1) :
+              Flow (Nat × List Bool × List Bool × List Bool × List Nat × Nat) (List Bool × List Bool × List Bool × List Nat × Nat))
+          else Flow.panic) =
+      match swapLoop (t.set pos s3) pos (N + 1) pos cc cr cu with
+      | none => Flow.panic
+      | some t2 =>
+        Flow.ret (1, occL (t2.set q { t2.get q with occ := true }), contL (t2.set q { t2.get q with occ := true }),
+          shiftL (t2.set q { t2.get q with occ := true }), remL (t2.set q { t2.get q with occ := true }), n + 1) := by
+  subst hX hY
+  have h1 : occL t = occL (t.set pos s3) := by
+    rw [occL_set, hocc]; exact (set_self_of_get _ _ _ (occL_get t pos)).symm
+  rw [← qf_insert_tail, ← h1, contL_set, shiftL_set, remL_set, hrem]
+
+/-- `QuotientFilter::insert_internal` as translated = the model's `insertInternal` -/
+theorem qf_insert_internal_eq (t : St N) (q : Fin N) (r : Nat) :
+    qf_insert_internal (occL t) (contL t) (shiftL t) (remL t) t.n q.val r =
+      match insertInternal t q r with
+      | none => Flow.panic
+      | some (t', res) => Flow.ret (qfRes res, (occL t', contL t', shiftL t', remL t', t'.n)) := by
+  unfold qf_insert_internal insertInternal
+  rw [qf_scan_eq]
+  cases hsc : scan t q r true with
+  | none => rfl
+  | some sr =>
+    obtain ⟨pres, pos, sor⟩ := sr
+    simp only
+    cases pres with
+    | true => simp [qfRes, Flow.bind]
+    | false =>
+      simp only [Bool.false_eq_true, if_false, Flow.bind_cont, occL_len]
+      by_cases hn : t.n = N
+      · simp [hn, qfRes, Flow.bind]
+      · simp only [hn, decide_false, Bool.false_eq_true, if_false, Flow.bind_cont, contL_get, remL_get, occL_get, shiftL_get,
+          remL_len, contL_len, shiftL_len, pos.isLt, if_true]
+        have hne : decide (pos.val ≠ q.val) = (pos != q) := by
+          by_cases h : pos = q
+          · simp [h]
+          · have : pos.val ≠ q.val := fun hv => h (Fin.ext hv)
+            simp [h, this]
+        have e1 : (occL t).set pos.val (t.get pos).occ = occL t := set_self_of_get _ _ _ (occL_get t pos)
+        have e2 : (contL t).set pos.val (t.get pos).cont = contL t := set_self_of_get _ _ _ (contL_get t pos)
+        have e3 : (shiftL t).set pos.val (t.get pos).shift = shiftL t := set_self_of_get _ _ _ (shiftL_get t pos)
+        cases sor with
+        | none =>
+          by_cases hq : pos = q
+          · subst hq
+            simp only [ScanResult.hasRun, ScanResult.atStartOfRun, Option.map_none, Option.isSome_none, Bool.false_and,
+              Bool.false_eq_true, if_false, Flow.bind_cont, ne_eq, not_true_eq_false, decide_false, bne_self_eq_false,
+              Bool.or_false, occL_len]
+            rw [qf_insert_leaf t pos pos r t.n _ _ _
+              { occ := (t.get pos).occ, cont := (t.get pos).cont, shift := (t.get pos).shift, rem := r } rfl rfl
+              (contL t) (shiftL t) e2.symm e3.symm]
+            cases hsw : swapLoop (t.set pos { occ := (t.get pos).occ, cont := (t.get pos).cont, shift := (t.get pos).shift, rem := r })
+              pos (N + 1) pos (t.get pos).cont (t.get pos).rem ((t.get pos).occ || (t.get pos).shift) with
+            | none => rfl
+            | some t2 =>
+              have hn2 : t2.n = t.n := by simpa [St.set] using swapLoop_n _ _ _ _ _ _ _ _ hsw
+              simp only [qfRes, St.set, hn2]
+              rfl
+          · have hqv : pos.val ≠ q.val := fun hv => hq (Fin.ext hv)
+            have hbne : (pos != q) = true := by simp [hq]
+            simp only [ScanResult.hasRun, ScanResult.atStartOfRun, Option.map_none, Option.map_some, Option.isSome_none, Option.isSome_some,
+              Bool.false_and, Bool.true_and, Bool.false_eq_true, if_false, if_true, Flow.bind_cont, ne_eq, not_true_eq_false, not_false_eq_true,
+              decide_false, decide_true, bne_self_eq_false, Bool.or_false, Bool.or_true, Bool.not_true, Bool.not_false, occL_len, shiftL_len,
+              contL_len, pos.isLt, hqv, hbne]
+            rw [qf_insert_leaf t pos q r t.n _ _ _
+              { occ := (t.get pos).occ, cont := (t.get pos).cont, shift := true, rem := r } rfl rfl
+              (contL t) ((shiftL t).set pos.val true) e2.symm rfl]
+            cases hsw : swapLoop (t.set pos { occ := (t.get pos).occ, cont := (t.get pos).cont, shift := true, rem := r })
+              pos (N + 1) pos (t.get pos).cont (t.get pos).rem ((t.get pos).occ || (t.get pos).shift) with
+            | none => rfl
+            | some t2 =>
+              have hn2 : t2.n = t.n := by simpa [St.set] using swapLoop_n _ _ _ _ _ _ _ _ hsw
+              simp only [qfRes, St.set, hn2]
+              rfl
+        | some s0 =>
+          by_cases hs0 : s0 = pos
+          · have hsv : s0.val = pos.val := by rw [hs0]
+            have hsb : (s0 == pos) = true := by simp [hs0]
+            by_cases hq : pos = q
+            · subst hq
+              simp only [ScanResult.hasRun, ScanResult.atStartOfRun, Option.map_none, Option.map_some, Option.isSome_none, Option.isSome_some,
+                Bool.false_and, Bool.true_and, Bool.false_eq_true, if_false, if_true, Flow.bind_cont, ne_eq, not_true_eq_false, not_false_eq_true,
+                decide_false, decide_true, bne_self_eq_false, beq_self_eq_true, Bool.or_false, Bool.or_true, Bool.not_true, Bool.not_false, occL_len, shiftL_len,
+                contL_len, pos.isLt, eq_self, hsv, hsb]
+              rw [qf_insert_leaf t pos pos r t.n _ _ _
+                { occ := (t.get pos).occ, cont := (t.get pos).cont, shift := (t.get pos).shift, rem := r } rfl rfl
+                (contL t) (shiftL t) e2.symm e3.symm]
+              cases hsw : swapLoop (t.set pos { occ := (t.get pos).occ, cont := (t.get pos).cont, shift := (t.get pos).shift, rem := r })
+                pos (N + 1) pos true (t.get pos).rem ((t.get pos).occ || (t.get pos).shift) with
+              | none => rfl
+              | some t2 =>
+                have hn2 : t2.n = t.n := by simpa [St.set] using swapLoop_n _ _ _ _ _ _ _ _ hsw
+                simp only [qfRes, St.set, hn2]
+                rfl
+            · have hqv : pos.val ≠ q.val := fun hv => hq (Fin.ext hv)
+              have hbne : (pos != q) = true := by simp [hq]
+              simp only [ScanResult.hasRun, ScanResult.atStartOfRun, Option.map_none, Option.map_some, Option.isSome_none, Option.isSome_some,
+                Bool.false_and, Bool.true_and, Bool.false_eq_true, if_false, if_true, Flow.bind_cont, ne_eq, not_true_eq_false, not_false_eq_true,
+                decide_false, decide_true, bne_self_eq_false, beq_self_eq_true, Bool.or_false, Bool.or_true, Bool.not_true, Bool.not_false, occL_len, shiftL_len,
+                contL_len, pos.isLt, eq_self, hsv, hsb, hqv, hbne]
+              rw [qf_insert_leaf t pos q r t.n _ _ _
+                { occ := (t.get pos).occ, cont := (t.get pos).cont, shift := true, rem := r } rfl rfl
+                (contL t) ((shiftL t).set pos.val true) e2.symm rfl]
+              cases hsw : swapLoop (t.set pos { occ := (t.get pos).occ, cont := (t.get pos).cont, shift := true, rem := r })
+                pos (N + 1) pos true (t.get pos).rem ((t.get pos).occ || (t.get pos).shift) with
+              | none => rfl
+              | some t2 =>
+                have hn2 : t2.n = t.n := by simpa [St.set] using swapLoop_n _ _ _ _ _ _ _ _ hsw
+                simp only [qfRes, St.set, hn2]
+                rfl
+          · have hsv : s0.val ≠ pos.val := fun hv => hs0 (Fin.ext hv)
+            have hsb : (s0 == pos) = false := by simp [hs0]
+            by_cases hq : pos = q
+            · subst hq
+              simp only [ScanResult.hasRun, ScanResult.atStartOfRun, Option.map_none, Option.map_some, Option.isSome_none, Option.isSome_some,
+                Bool.false_and, Bool.true_and, Bool.false_eq_true, if_false, if_true, Flow.bind_cont, ne_eq, not_true_eq_false, not_false_eq_true,
+                decide_false, decide_true, bne_self_eq_false, beq_self_eq_true, Bool.or_false, Bool.or_true, Bool.not_true, Bool.not_false, occL_len, shiftL_len,
+                contL_len, pos.isLt, eq_self, hsv, hsb]
+              rw [qf_insert_leaf t pos pos r t.n _ _ _
+                { occ := (t.get pos).occ, cont := true, shift := (t.get pos).shift, rem := r } rfl rfl
+                ((contL t).set pos.val true) (shiftL t) rfl e3.symm]
+              cases hsw : swapLoop (t.set pos { occ := (t.get pos).occ, cont := true, shift := (t.get pos).shift, rem := r })
+                pos (N + 1) pos (t.get pos).cont (t.get pos).rem ((t.get pos).occ || (t.get pos).shift) with
+              | none => rfl
+              | some t2 =>
+                have hn2 : t2.n = t.n := by simpa [St.set] using swapLoop_n _ _ _ _ _ _ _ _ hsw
+                simp only [qfRes, St.set, hn2]
+                rfl
+            · have hqv : pos.val ≠ q.val := fun hv => hq (Fin.ext hv)
+              have hbne : (pos != q) = true := by simp [hq]
+              simp only [ScanResult.hasRun, ScanResult.atStartOfRun, Option.map_none, Option.map_some, Option.isSome_none, Option.isSome_some,
+                Bool.false_and, Bool.true_and, Bool.false_eq_true, if_false, if_true, Flow.bind_cont, ne_eq, not_true_eq_false, not_false_eq_true,
+                decide_false, decide_true, bne_self_eq_false, beq_self_eq_true, Bool.or_false, Bool.or_true, Bool.not_true, Bool.not_false, occL_len, shiftL_len,
+                contL_len, pos.isLt, eq_self, hsv, hsb, hqv, hbne]
+              rw [qf_insert_leaf t pos q r t.n _ _ _
+                { occ := (t.get pos).occ, cont := true, shift := true, rem := r } rfl rfl
+                ((contL t).set pos.val true) ((shiftL t).set pos.val true) rfl rfl]
+              cases hsw : swapLoop (t.set pos { occ := (t.get pos).occ, cont := true, shift := true, rem := r })
+                pos (N + 1) pos (t.get pos).cont (t.get pos).rem ((t.get pos).occ || (t.get pos).shift) with
+              | none => rfl
+              | some t2 =>
+                have hn2 : t2.n = t.n := by simpa [St.set] using swapLoop_n _ _ _ _ _ _ _ _ hsw
+                simp only [qfRes, St.set, hn2]
+                rfl
 
 end Pds.KernelTie
